@@ -138,6 +138,26 @@ def check_case(case):
     if rep["summary"] is not None and abs(float(rep["summary"]["cp"]) - total) > 1e-9:
         raise Violation("cp-summary-row:" + case["isa"], "CP figure of the summary row", rep["summary"]["cp"], total)
     cl = [case["isa"]]
+    # the same kernel with blank lines inside (gaps in the line numbering): same critical-path instructions, same
+    # per-line CP latencies, same total
+    gaps = sorted({1 + (case.get("first_line", 0) * 7 + 3 * j + len(case["kernel"])) % max(1, len(case["kernel"]) - 1)
+                   for j in range(2)}) if len(case["kernel"]) >= 3 else []
+    if gaps:
+        from checks import c03
+        tl = deps.kernel_text(case).split("\n")
+        lead = case.get("first_line", 0)
+        for g in reversed(gaps):
+            tl.insert(lead + g, "")
+        k2, dg2, _, _ = c03.runner().build(case, text="\n".join(tl))
+        cp2 = guard(dg2.get_critical_path, what="get_critical_path(gaps)")
+        pos1 = {id(x): i for i, x in enumerate(kernel)}
+        pos2 = {id(x): i for i, x in enumerate(k2)}
+        a1 = sorted((pos1[id(x)], float(x.latency_cp)) for x in cp_k)
+        a2 = sorted((pos2[id(x)], float(x.latency_cp)) for x in cp2 if id(x) in pos2)
+        if a1 != a2 or len(a2) != len(cp2):
+            raise Violation("cp-gaps:" + case["isa"], "blank lines inside the kernel (line numbers with gaps) change "
+                            "the critical path (instruction positions, CP latencies)", a2, a1)
+        cl.append("line-number-gaps")
     if any(v == 0.0 for v in want.values()) and len(want) > 1:
         cl.append("cp-has-zero-latency-member")
     if load_head:
